@@ -391,8 +391,15 @@ class Backend(ABC):
         if len(fields) != 1:
             return False
 
-        # All argument values must be strings or numbers
-        if not all([isinstance(arg.value, (SigmaString, SigmaNumber)) for arg in args]):
+        # All argument values must be plain strings or numbers. Case-sensitive strings and timestamp
+        # parts are converted by handlers of their own and can't be folded into a value list.
+        if not all(
+            [
+                isinstance(arg.value, (SigmaString, SigmaNumber))
+                and not isinstance(arg.value, (SigmaCasedString, SigmaTimestampPart))
+                for arg in args
+            ]
+        ):
             return False
 
         # Check for plain strings if wildcards are not allowed for string expressions.
